@@ -1,7 +1,7 @@
 (* C12 property theorems: statements only, each closed by [exact]. *)
 From Boltons Require Import Lib.Prelude Lib.C12_Base Spec.C12_Spec Model.C12_Model
   Proofs.C12_Find Proofs.C12_Recv Proofs.C12_Send Proofs.C12_Main Proofs.C12_Chunking
-  Proofs.C12_Netstring.
+  Proofs.C12_Netstring Proofs.C12_Consts Gen.C12_Gen.
 
 (* --- the rolling search offset of recv_until loses no occurrence ------------------- *)
 Theorem C12_find_rolling : forall d old nxt stop,
@@ -147,3 +147,12 @@ Example C12_netstring_ex :
   ns_read_retry (ns_init 10 [Chunk [51]; TimeoutEv; Chunk [58;58;44]; TimeoutEv; Chunk [49;44;48];
                              Chunk [58;44]]%N []) 2 = [OBytes [58;44;49]; OBytes []]%N.
 Proof. vm_compute. reflexivity. Qed.
+
+(* --- (T) constants regenerated from boltons/socketutils.py on every run ------------------------ *)
+(* the model's DEFAULT_MAXSIZE (maxsize and recvsize of NetstringSocket's inner BufferedSocket) is
+   the module's; 1024**5 substituted for maxsize=None is beyond any stream the model's "no limit"
+   could be distinguished on (>= 2^50 bytes) *)
+Theorem C12_constants_current :
+  N.of_nat DEFAULT_MAXSIZE = gen_DEFAULT_MAXSIZE /\ (2 ^ 50 <= gen_RECV_LARGE_MAXSIZE)%N.
+Proof. exact constants_current. Qed.
+Print Assumptions C12_constants_current.
